@@ -40,7 +40,9 @@ class Ctx:
         self.t0 = time.time()
         self.scratch = tempfile.mkdtemp(prefix="verif-%s-" % pid)
         atexit.register(shutil.rmtree, self.scratch, True)
-        self.out = os.path.join(VERIF, "out", pid)
+        # VERIF_SCRATCH_RESULTS (development aid, used by tools/seedpre.py): evidence and replay files of a run against a
+        # deliberately changed tree go to a scratch directory instead of /verif/evidence and /verif/out
+        self.out = os.path.join(os.environ.get("VERIF_SCRATCH_RESULTS") or os.path.join(VERIF, "out"), pid)
         os.makedirs(self.out, exist_ok=True)
         self.notes = []
 
@@ -493,7 +495,7 @@ def write_evidence(ctx, level, coverage, assumptions, violations):
         "wall_s": round(time.time() - ctx.t0, 2),
         "violations": int(violations),
     }
-    path = os.path.join(EVIDENCE, ctx.pid + ".json")
+    path = os.path.join(os.environ.get("VERIF_SCRATCH_RESULTS") or EVIDENCE, ctx.pid + ".json")
     tmp = path + ".tmp"
     with open(tmp, "w") as fh:
         json.dump(ev, fh, indent=1, default=str)
@@ -511,7 +513,7 @@ def tla_str_set(xs):
 # --------------------------------------------------------------------------
 
 def rows_check(ctx, pkg, test, module, env=None, timeout=1200, workers=2, rows_name="rows.ndjson",
-               chunk=6000, par=7, crash_is=None, shards=1, allow_empty=False, cfg=None):
+               chunk=6000, par=7, crash_is=None, shards=1, allow_empty=False, cfg=None, hang_ok=False):
     """Run the injected Go driver `test` (writes $VERIF_OUT/rows.ndjson), then TLC `module`
     over the rows with -continue (rows split in chunks validated by parallel TLC processes).
     Returns (rows, [(invariant, row_index, row)], aggregate) where aggregate has .distinct/.generated.
@@ -526,6 +528,7 @@ def rows_check(ctx, pkg, test, module, env=None, timeout=1200, workers=2, rows_n
     if shards > 1:
         binary = go_test_build(ctx, pkg)
         crashes = []
+        hangs = []
         resumed = {}
 
         def launch(k, skipfile):
@@ -563,6 +566,47 @@ def rows_check(ctx, pkg, test, module, env=None, timeout=1200, workers=2, rows_n
             if p.returncode != 0:
                 d = os.path.join(out, "shard-%d" % k)
                 m = re.search(r"^panic: (.*)$", o, re.M)
+                hm = re.search(r"^VERIF-HANG scenario=(\S+) (.*)$", o, re.M)
+                if hm and attempts[k] < 200 and os.path.exists(os.path.join(d, "current.json")):
+                    # the scenario never ended (real-time watchdog of the driver): which goroutines sit in mysync code?
+                    attempts[k] += 1
+                    cur = json.load(open(os.path.join(d, "current.json")))
+                    dump = o[o.find("VERIF-HANG scenario="):]
+                    stuck = []
+                    for g in dump.split("\n\n"):
+                        fr = re.findall(r"(/repo/(?:internal|cmd)/(?![^\n]*zzverif_)[^\s]+\.go:\d+)", g)
+                        fn = re.findall(r"^(github\.com/yandex/mysync/internal/app\.\(\*App\)\.[A-Za-z0-9_]+)", g, re.M)
+                        if fr and fn and g.lstrip().startswith("goroutine "):
+                            stuck.append({"state": g.lstrip().split("\n")[0][:80], "functions": fn[:4], "frames": fr[:4]})
+                    hangs.append({"scenario": cur, "what": hm.group(2), "stuck": stuck[:6]})
+                    done_ids = set()
+                    for fn_ in (rows_name, "meta.ndjson"):
+                        fp = os.path.join(d, fn_)
+                        if not os.path.exists(fp):
+                            continue
+                        good = []
+                        for ln in open(fp, errors="replace"):
+                            try:
+                                obj = json.loads(ln)
+                            except ValueError:
+                                break
+                            if not ln.endswith("\n"):
+                                break
+                            good.append(ln)
+                            if fn_ == "meta.ndjson" and isinstance(obj, dict) and obj.get("scn") and "scenario" in obj:
+                                done_ids.add(obj["scn"])
+                        with open(fp, "w") as fh:
+                            fh.writelines(good)
+                    with open(skipfiles[k], "a") as fh:
+                        fh.write(cur["id"] + "\n")
+                        for i in sorted(done_ids):
+                            fh.write(i + "\n")
+                    resumed[k] = True
+                    # the log is truncated so that the next failure of this shard is not mistaken for this one
+                    open(lp, "w").close()
+                    procs[k] = launch(k, skipfiles[k])
+                    pending.append(k)
+                    continue
                 own = m and "test timed out" not in m.group(1) and re.search(r"/repo/(internal|cmd)/(?![^\n]*zzverif_)[^\n]*\.go:\d+", o) \
                     and not re.search(r"^panic: .*\n(?:.*\n){0,6}.*zzverif_", o, re.M)
                 if own and attempts[k] < 200 and os.path.exists(os.path.join(d, "current.json")):
@@ -607,6 +651,10 @@ def rows_check(ctx, pkg, test, module, env=None, timeout=1200, workers=2, rows_n
                 raise Inconclusive("row driver %s shard %d failed (rc=%s): %s\n%s" % (test, k, p.returncode,
                                    mm.group(1) if mm else "", o[-1500:]))
         ctx.crashes = crashes
+        ctx.hangs = hangs
+        if hangs and not hang_ok:
+            raise Inconclusive("scenario %s never ended (real-time watchdog of the driver); goroutines in mysync code: %s"
+                               % (hangs[0]["scenario"].get("id"), json.dumps(hangs[0]["stuck"])[:1500]))
         with open(path, "w") as allrows:
             metas = []
             for k in range(shards):
